@@ -153,7 +153,7 @@ type Node struct {
 	Name         string            `json:"name"`
 	Pool         string            `json:"pool"` // "" = unmanaged node
 	IT           string            `json:"it"`
-	Zone         string            `json:"zone"`
+	Zone         string            `json:"zone"` // "" (unmanaged nodes only) = the node has no zone label
 	CapacityType string            `json:"capacityType"`
 	Labels       map[string]string `json:"labels"`
 	Taints       []Taint           `json:"taints"`
@@ -169,6 +169,9 @@ type DaemonSet struct {
 	NodeSelector map[string]string `json:"nodeSelector"`
 	Tolerations  []Toleration      `json:"tolerations"`
 	HostPorts    []HostPort        `json:"hostPorts"`
+	// LimitsOnly: the template's container declares CPU/Mem as LIMITS and has no requests stanza (the API server defaults a
+	// pod's requests to its limits, so the daemon pod still requests CPU/Mem; templates are not defaulted)
+	LimitsOnly bool `json:"limitsOnly,omitempty"`
 }
 
 // Namespace is a namespace object with its labels (every namespace also carries kubernetes.io/metadata.name=<name>).
